@@ -342,6 +342,8 @@ def _work_cases(job):
             if key in seen:
                 continue
             seen.add(key)
+            if isinstance(v.get("info"), dict) and "defined" in v["info"]:
+                v["model"] = dict(v["model"], _bits={sc: sc in v["info"]["defined"] for sc in ("data", "builtins", "locals", "globals", "extra", "none_winner")})
             rep, detail = replay_concrete(harness, case, v["model"], v["label"])
             sig = mod.signature(case, v) if hasattr(mod, "signature") else {"case": repr(case), "what": v["label"]}
             out["violations"].append(
